@@ -125,6 +125,15 @@ class SimPort:
             del self.net.listeners[self.port]
             self.factory.doStop()
             self.net.sim.ev("unlisten", self.port)
+            # connections still waiting in the accept queue die with the
+            # listening socket
+            for link in self.net.links:
+                if getattr(link, "server_port", None) is self and \
+                        not link.ends[1].made and link.up:
+                    self.net.sim.note("unaccepted_connection_reset")
+                    link.ends[1].made = True
+                    link.ends[1].alive = False
+                    self.net.cut(link, tell=("c",))
         return succeed(None)
 
     def getHost(self):
@@ -449,7 +458,15 @@ class Net:
             end.protocol = proto
         if self.sim.on_end_made:
             self.sim.on_end_made(end)
-        proto.makeConnection(end.transport)
+        try:
+            proto.makeConnection(end.transport)
+        except Exception:
+            # tcp.Port.doRead logs and carries on; tcp.Client drops the link
+            f = failure.Failure()
+            self.sim.note("exception_in_connectionMade")
+            log.err(f, "sim: exception in connectionMade")
+            if end.role == "c":
+                self.fail_end(end, f)
 
     # -- moving bytes ---------------------------------------------------------
     def flush_end(self, end, limit=None):
